@@ -38,8 +38,21 @@ CHECKS = {
  "C17": dict(cat="exploration", tech="differential CLI runs (PUSH0 on/off, -c selection) with offline checkers over emitted files, CSV rows and printed totals",
    text="The same zero-push-rich documents are optimized with PUSH0 enabled and disabled: no PUSH0 item may be emitted when disabled, input and output accounting must differ between the settings by exactly one byte and one gas per zero push, and with -c X only X's blocks are processed, emitted and counted.",
    note="inputs contain no literal PUSH0 item; pricing check is differential between the two settings", ref="3/C17"),
+ "C10": dict(cat="fault_enumeration", tech="resource monitor (CPU/RSS read from /proc by a supervising parent) on hostile workloads; failpoint injection in the front-end with output diff",
+   text="Hostile generated blocks run through the real per-block pipeline under a supervising parent that enforces a CPU budget (20 s + 1 s per instruction) and 1.5 GiB RSS and records escaping exceptions; CLI runs must exit 0 with an output file under several hash seeds; a failpoint raising in the front-end for one block (in the first analysis only, or in every analysis) must leave every other block's result unchanged and that block unchanged.",
+   note="bounded-progress restatement of termination; CPU time decides, wall-clock-only expiry is inconclusive", ref="3/C10"),
+ "C11": dict(cat="fault_enumeration", tech="CLI round trip -log / -optimize-from-log with byte comparison; tampered-log injection with differential execution of accepted outputs",
+   text="Logs written by real CLI runs are replayed with the same input/options (byte-identical output required) and in tampered form (9 edit kinds); a tampered replay must exit non-zero or emit code the reference interpreter cannot distinguish from the input.",
+   note="equivalence of accepted tampered replays decided on sampled states", ref="3/C11"),
+ "C12": dict(cat="exploration", tech="history permutation: the same blocks processed by fresh processes in different orders and alone; offline comparison of recorded results",
+   text="Groups of generated blocks are processed by separate fresh processes in forward, reverse and shuffled orders and alone; per block the recorded specification dictionaries, sub-block lists, emitted code, statistics rows and log ids must be identical across histories.",
+   note="one option set per process; timings and scratch directory excluded", ref="3/C12"),
+ "C13": dict(cat="exploration", tech="repeated CLI runs under different PYTHONHASHSEED / cwd / load with byte comparison of all artefacts",
+   text="The same input and options are run in separate processes under several hash seeds, scratch directories and concurrent load; specification JSONs, greedy id lists (log), emitted files and CSV rows (timings masked) must be byte-identical.",
+   note="finitely many seeds and one load level", ref="3/C13"),
 }
-NOT_YET = {}
+NOT_YET = {"C06": "planned: stand-in solver (z3 model enumeration) driving the real encoder; not built yet, nothing claimed",
+           "C07": "planned together with C06 (brute-force optimum vs. soft-constraint optimum); not built yet, nothing claimed"}
 def main():
     props = [json.loads(l) for l in open(os.path.join(V, "properties.jsonl"))]
     checks = []
